@@ -170,6 +170,15 @@ def quantities_tu(types=('double',), other_types=('float',), classes=None, hash_
             s += 'template class PhQ::%s<%s>;\n' % (c, t)
             if hash_:
                 s += 'template struct std::hash<PhQ::%s<%s>>;\n' % (c, t)
+    # one representative instantiation of each Dimensional* base class template (all members, incl. the text forms)
+    reps = {}
+    for h in astload.all_headers():
+        txt = open(os.path.join(astload.INC, h)).read()
+        for m in re.finditer(r'class (\w+) : public (Dimensional\w+)<Unit::(\w+), NumericType>', txt):
+            reps.setdefault(m.group(2), m.group(3))
+    for t in types:
+        for b, u in sorted(reps.items()):
+            s += 'template class PhQ::%s<PhQ::Unit::%s, %s>;\n' % (b, u, t)
     s += 'namespace PhQ { namespace phqv_use {\n'
     n = 0
     for t in types:
@@ -219,6 +228,7 @@ def units_tu(types=('double',), shapes=True, model_type=False):
     s += 'void use_us(UnitSystem s) { (void)Abbreviation(s); (void)ParseEnumeration<UnitSystem>("x"); }\n'
     if model_type:
         s += 'void use_mt(ConstitutiveModel::Type s) { (void)Abbreviation(s); (void)ParseEnumeration<ConstitutiveModel::Type>("x"); }\n'
+    s += 'void use_print(float a, double b, long double c) { (void)Print(a); (void)Print(b); (void)Print(c); }\n'
     s += '} }\n'
     return s
 
@@ -241,3 +251,9 @@ def models_tu(types=('double',)):
             n += 1
     s += '} }\n'
     return s
+
+
+def print_tu():
+    """PhQ::Print<T> for the three numeric types (Base.hpp only)."""
+    return includes(['PhQ/Base.hpp']) + 'namespace PhQ { namespace phqv_use {\n' \
+        'void use_print(float a, double b, long double c) { (void)Print(a); (void)Print(b); (void)Print(c); }\n} }\n'
